@@ -608,7 +608,7 @@ func ParseContractFile(path string, pkg string, assumed bool) (*ContractFile, er
 var clauseKeywords = map[string]bool{
 	"requires": true, "ensures": true, "proves": true, "modifies": true, "nopanic": true, "loop": true, "on": true,
 	"ghost": true, "inline": true, "opaque": true, "assume": true, "func": true, "pred": true,
-	"spec": true, "lemma": true, "axiom": true, "terminates": true, "pure": true, "alloc": true, "mergeexits": true, "thorough": true, "panics": true, "havoc": true, "trusted": true,
+	"spec": true, "lemma": true, "axiom": true, "terminates": true, "pure": true, "alloc": true, "mergeexits": true, "thorough": true, "callee": true, "panics": true, "havoc": true, "trusted": true,
 }
 
 func ParseContractText(text, path, pkg string, assumed bool) (*ContractFile, error) {
@@ -781,6 +781,14 @@ func ParseContractText(text, path, pkg string, assumed bool) (*ContractFile, err
 					c.Locs = append(c.Locs, e)
 				}
 			case "nopanic", "inline", "opaque", "terminates", "pure", "havoc", "trusted", "mergeexits":
+			case "callee":
+				// callee NAME pure : calls named NAME inside this function have no heap effect (UNCHECKED assumption, listed)
+				toks := strings.Fields(rest)
+				if len(toks) != 2 || toks[1] != "pure" {
+					return nil, fail(fmt.Errorf("callee NAME pure"))
+				}
+				c.Kind = "calleepure"
+				c.Callee = toks[0]
 			case "thorough":
 				// thorough PATTERN: obligations whose name contains PATTERN are solved in the thorough tier only
 				c.Callee = strings.TrimSpace(rest)
